@@ -65,7 +65,9 @@ CHECKS['C06'] = ('3/C06', 'Self-composition over the real clone code: A cloned n
 CHECKS['C12'] = ('3/C12', 'For each of the 120 accepted correlation combinations the real correlated-parameter routines run on a real bundle '
                  'with a symbolic viscosity (bundle Re in (10, 1e6)); every regime combination of the three correlation families is a '
                  'path; no path may end in an exception (68 combinations do in the transition regime: recorded known finding); mass '
-                 'conservation and signs of the split are SMT queries per path.  Pressure-gradient equalisation is outside (not built).')
+                 'conservation, signs of the split and finiteness (every logarithm evaluated on the path has a positive argument; Novendstern '
+                 'friction below Re ~ 21 does not: recorded known finding) are SMT queries per path.  Laminar/turbulent Cheng-Todreas gradient equality '
+                 'is a concrete evaluation per enumerated bundle; transition-regime equalisation is outside (not built).')
 
 CHECKS['C03'] = ('3/C03', 'A real AssemblyPower built from symbolic non-negative polynomial profiles; presweep_setup and the sequence of '
                  'get_power_sweep calls of a sweep run for arbitrary plane positions inside each power cell and for each placement of the '
